@@ -185,6 +185,20 @@ def run(chk):
             if not np.allclose(np.asarray(kz.centroids_), wantz, rtol=1e-12, atol=1e-12):
                 chk.fail("a cluster whose members sum to exactly 0 in a feature does not get the mean (0) in that coordinate: %s instead of %s" % (np.asarray(kz.centroids_).tolist(), wantz.tolist()),
                          {"X": hexlist(Xz), "init": hexlist(initz), "chunks": list(chz) if chz else None})
+    # ---- the stopping rule on data in very small units (criterion around 1e-10): the RELATIVE change decides, exactly as at unit scale
+    for i in range(3 if chk.tier == "quick" else 40):
+        initq, Xq = kt.gen_clusters(r, K=r.choice([2, 3]), D=2, N=r.choice([15, 21]))
+        g = gen.nprng(r)
+        initq = Xq[g.choice(len(Xq), size=len(initq), replace=False)]
+        k1_, n1_, cv1_ = kt.run_kfit(initq, Xq, None, cap=40, cthr=1e-4)
+        sq_ = 1e-5
+        k2_, n2_, cv2_ = kt.run_kfit(initq * sq_, Xq * sq_, None, cap=40, cthr=1e-4)
+        chk.count(1, key=("stopping rule in tiny units", n1_))
+        # (the criteria differ by the factor 1e-10 up to rounding; a relative change within 1e-9 of the threshold could legitimately fall on either side)
+        near_ = any(abs(c_ - 1e-4) < 1e-9 for c_ in cv1_)
+        if not near_ and not (n1_ == n2_ and np.allclose(np.asarray(k2_.centroids_) / sq_, np.asarray(k1_.centroids_), rtol=1e-7, atol=1e-9)):
+            chk.fail("k-means with threshold 1e-4 on data in units 1e5 times larger (values scaled by 1e-5) stops after %d iterations instead of %d" % (n2_, n1_),
+                     {"X": hexlist(Xq), "init": hexlist(initq), "scale": sq_, "relative_changes_at_unit_scale": cv1_})
     # ---- the same k-means OBJECT trained again (more iterations allowed, same explicit start): the second training is a training like any
     #      other - nothing of the first one (its last criterion) enters the stopping rule
     for i in range(4 if chk.tier == "quick" else 60):
